@@ -32,6 +32,9 @@ const (
 	skTuple           // multi-value
 	skIte             // f ? a : b
 	skUnk             // unknown number (results of the sizing function)
+	skStruct          // record of values (flag sets, typed error literals): fields
+	skBits            // integer whose bits are formulas (bit sets): bits, LSB first
+	skArr             // fixed array of values: elems
 )
 
 type sval struct {
@@ -44,11 +47,24 @@ type sval struct {
 	ref    *sref
 	t      []sval
 	a, b   *sval
+	// skStruct
+	typ    string // name of the struct type
+	fields map[string]sval
+	isPtr  bool // built as &T{…}: a non-nil pointer
+	// skBits / skArr
+	bits  []*bform
+	elems []sval
 }
 
 type sref struct {
 	depth int
 	obj   types.Object
+	path  []spath // fields / array elements below the variable
+}
+
+type spath struct {
+	field string
+	idx   int
 }
 
 type piece struct {
@@ -287,6 +303,40 @@ type semit struct {
 	// calls whose result could not be interpreted and is a number: sizing
 	unkCalls []*ast.CallExpr
 	depth    int
+	// table reads with a symbolic index: the condition under which the index is inside the table
+	oob []oobCheck
+	// path condition of the statement being executed (nil = true)
+	pc *bform
+}
+
+type oobCheck struct {
+	at      ast.Node
+	inRange *bform
+	pc      *bform
+}
+
+// bitsEqConst: the bit vector equals the constant
+func bitsEqConst(bits []*bform, k int64) *bform {
+	var f *bform = &bform{op: "true"}
+	if k < 0 || (len(bits) < 63 && k>>uint(len(bits)) != 0) {
+		return &bform{op: "false"}
+	}
+	for i, b := range bits {
+		if k>>uint(i)&1 == 1 {
+			f = bAnd(f, b)
+		} else {
+			f = bAnd(f, bNot(b))
+		}
+	}
+	return f
+}
+
+func bitsNonZero(bits []*bform) *bform {
+	var f *bform = &bform{op: "false"}
+	for _, b := range bits {
+		f = bOr(f, b)
+	}
+	return f
 }
 
 type semitErr struct {
@@ -364,7 +414,15 @@ func svalEqual(a, b sval) bool {
 	case skBuf:
 		return piecesEqual(a.pieces, b.pieces)
 	case skPtr:
-		return a.ref.depth == b.ref.depth && a.ref.obj == b.ref.obj
+		if a.ref.depth != b.ref.depth || a.ref.obj != b.ref.obj || len(a.ref.path) != len(b.ref.path) {
+			return false
+		}
+		for i := range a.ref.path {
+			if a.ref.path[i] != b.ref.path[i] {
+				return false
+			}
+		}
+		return true
 	case skRecv, skUnk:
 		return true
 	case skTuple:
@@ -379,6 +437,37 @@ func svalEqual(a, b sval) bool {
 		return true
 	case skIte:
 		return a.f.String() == b.f.String() && svalEqual(*a.a, *b.a) && svalEqual(*a.b, *b.b)
+	case skStruct:
+		if a.typ != b.typ || a.isPtr != b.isPtr || len(a.fields) != len(b.fields) {
+			return false
+		}
+		for k, v := range a.fields {
+			w, ok := b.fields[k]
+			if !ok || !svalEqual(v, w) {
+				return false
+			}
+		}
+		return true
+	case skBits:
+		if len(a.bits) != len(b.bits) {
+			return false
+		}
+		for i := range a.bits {
+			if a.bits[i].String() != b.bits[i].String() {
+				return false
+			}
+		}
+		return true
+	case skArr:
+		if len(a.elems) != len(b.elems) {
+			return false
+		}
+		for i := range a.elems {
+			if !svalEqual(a.elems[i], b.elems[i]) {
+				return false
+			}
+		}
+		return true
 	}
 	return false
 }
@@ -428,8 +517,103 @@ func mergeVal(c *bform, v1, v2 sval) (sval, error) {
 	if b1, b2 := asBool(v1), asBool(v2); b1 != nil && b2 != nil {
 		return sval{k: skBool, f: bOr(bAnd(c, b1), bAnd(bNot(c), b2))}, nil
 	}
+	if v1.k == skStruct && v2.k == skStruct && v1.typ == v2.typ && v1.isPtr == v2.isPtr {
+		out := sval{k: skStruct, typ: v1.typ, isPtr: v1.isPtr, fields: map[string]sval{}}
+		for k, a := range v1.fields {
+			m, err := mergeVal(c, a, v2.fields[k])
+			if err != nil {
+				return sval{}, err
+			}
+			out.fields[k] = m
+		}
+		return out, nil
+	}
+	if v1.k == skArr && v2.k == skArr && len(v1.elems) == len(v2.elems) {
+		out := sval{k: skArr}
+		for i := range v1.elems {
+			m, err := mergeVal(c, v1.elems[i], v2.elems[i])
+			if err != nil {
+				return sval{}, err
+			}
+			out.elems = append(out.elems, m)
+		}
+		return out, nil
+	}
+	if v1.k == skConc && v2.k == skConc && v1.c.K == VInt && v2.c.K == VInt && v1.c.I >= 0 && v2.c.I >= 0 {
+		v1 = sval{k: skBits, bits: bitsOf(v1.c.I, 64)}
+	}
+	if b1, b2, ok := bothBits(v1, v2); ok {
+		out := sval{k: skBits}
+		for i := range b1 {
+			out.bits = append(out.bits, bIte(c, b1[i], b2[i]))
+		}
+		return out, nil
+	}
 	a, b := v1, v2
 	return sval{k: skIte, f: c, a: &a, b: &b}, nil
+}
+
+func bIte(c, x, y *bform) *bform {
+	if x.String() == y.String() {
+		return x
+	}
+	return bOr(bAnd(c, x), bAnd(bNot(c), y))
+}
+
+func bConst(v bool) *bform {
+	if v {
+		return &bform{op: "true"}
+	}
+	return &bform{op: "false"}
+}
+
+// bitsOf: a concrete integer as w constant bits
+func bitsOf(v int64, w int) []*bform {
+	out := make([]*bform, w)
+	for i := 0; i < w; i++ {
+		out[i] = bConst(v>>uint(i)&1 == 1)
+	}
+	return out
+}
+
+// bothBits brings two integer operands (symbolic bits or concrete) to a common width.
+func bothBits(a, b sval) ([]*bform, []*bform, bool) {
+	isInt := func(v sval) bool { return v.k == skBits || (v.k == skConc && v.c.K == VInt) }
+	if !isInt(a) || !isInt(b) || (a.k != skBits && b.k != skBits) {
+		return nil, nil, false
+	}
+	w := 0
+	if a.k == skBits {
+		w = len(a.bits)
+	}
+	if b.k == skBits && len(b.bits) > w {
+		w = len(b.bits)
+	}
+	get := func(v sval) []*bform {
+		if v.k == skConc {
+			return bitsOf(v.c.I, w)
+		}
+		out := append([]*bform(nil), v.bits...)
+		for len(out) < w {
+			out = append(out, bConst(false))
+		}
+		return out
+	}
+	return get(a), get(b), true
+}
+
+func widthOf(t types.Type) int {
+	if b, ok := t.Underlying().(*types.Basic); ok {
+		switch b.Kind() {
+		case types.Uint8, types.Int8:
+			return 8
+		case types.Uint16, types.Int16:
+			return 16
+		case types.Uint32, types.Int32:
+			return 32
+		}
+	}
+	return 64
 }
 
 func mergeStates(c *bform, s1, s2 *sstate) (*sstate, error) {
@@ -500,12 +684,15 @@ func mergeByCtrl(outs []sout) ([]sout, error) {
 func (in *semit) execList(st *sstate, list []ast.Stmt) ([]sout, error) {
 	cur := []sout{{ctrl: scNext, st: st}}
 	var done []sout
+	basePC := in.pc
+	defer func() { in.pc = basePC }()
 	for _, s := range list {
 		if len(cur) == 0 {
 			break
 		}
 		var nxt []sout
 		for _, o := range cur {
+			in.pc = bAnd(basePC, o.cond)
 			outs, err := in.exec(o.st, s)
 			if err != nil {
 				return nil, err
@@ -567,11 +754,7 @@ func (in *semit) exec(st *sstate, s ast.Stmt) ([]sout, error) {
 					}
 					st.top().vars[obj] = v
 				} else if len(vs.Values) == 0 {
-					if isByteSlice(obj.Type()) {
-						st.top().vars[obj] = sval{k: skBuf}
-					} else {
-						st.top().vars[obj] = conc(zeroOf(obj.Type()))
-					}
+					st.top().vars[obj] = in.zeroSym(obj.Type())
 				} else {
 					return nil, serr(s, "multi-value var declaration")
 				}
@@ -675,11 +858,16 @@ func (in *semit) exec(st *sstate, s ast.Stmt) ([]sout, error) {
 		if !ok {
 			return nil, serr(x.Cond, "condition is neither concrete nor a test on Get strings")
 		}
+		pc0 := in.pc
+		in.pc = bAnd(pc0, f)
 		o1, err := in.execList(st.fork(), x.Body.List)
+		in.pc = pc0
 		if err != nil {
 			return nil, err
 		}
+		in.pc = bAnd(pc0, bNot(f))
 		o2, err := els(st.fork())
+		in.pc = pc0
 		if err != nil {
 			return nil, err
 		}
@@ -933,6 +1121,30 @@ func (in *semit) assignStmt(st *sstate, x *ast.AssignStmt) error {
 		if l.k == skUnk || r.k == skUnk {
 			return in.store(st, x.Lhs[0], sval{k: skUnk})
 		}
+		if l.k == skBits || r.k == skBits {
+			var op token.Token
+			switch x.Tok {
+			case token.OR_ASSIGN:
+				op = token.OR
+			case token.AND_ASSIGN:
+				op = token.AND
+			case token.XOR_ASSIGN:
+				op = token.XOR
+			case token.AND_NOT_ASSIGN:
+				op = token.AND_NOT
+			case token.SHL_ASSIGN:
+				op = token.SHL
+			case token.SHR_ASSIGN:
+				op = token.SHR
+			default:
+				return serr(x, "op-assignment %s on a symbolic bit set", x.Tok)
+			}
+			v, err := in.evalBinary(st, &ast.BinaryExpr{X: x.Lhs[0], Op: op, Y: x.Rhs[0], OpPos: x.TokPos})
+			if err != nil {
+				return err
+			}
+			return in.store(st, x.Lhs[0], v)
+		}
 		if l.k != skConc || r.k != skConc {
 			return serr(x, "op-assignment on symbolic values")
 		}
@@ -1036,18 +1248,183 @@ func (in *semit) store(st *sstate, lhs ast.Expr, v sval) error {
 		}
 		st.top().vars[obj] = v
 		return nil
-	case *ast.StarExpr:
-		p, err := in.eval(st, l.X)
+	case *ast.StarExpr, *ast.SelectorExpr, *ast.IndexExpr:
+		r, err := in.refOf(st, lhs)
 		if err != nil {
 			return err
 		}
-		if p.k != skPtr {
-			return serr(lhs, "store through something that is not a pointer to a local")
+		if err := in.storeRef(st, r, v); err != nil {
+			return serr(lhs, "%v", err)
 		}
-		st.frames[p.ref.depth].vars[p.ref.obj] = v
 		return nil
 	}
 	return serr(lhs, "assignment target outside the emitter language")
+}
+
+
+// ---------------------------------------------------------------------------
+// references into local variables (fields, array elements, through pointers)
+
+func (in *semit) refOf(st *sstate, e ast.Expr) (*sref, error) {
+	info := in.p.Info
+	switch x := e.(type) {
+	case *ast.ParenExpr:
+		return in.refOf(st, x.X)
+	case *ast.Ident:
+		obj := info.Uses[x]
+		if obj == nil {
+			obj = info.Defs[x]
+		}
+		if _, ok := st.top().vars[obj]; !ok {
+			return nil, serr(e, "%s has no value", x.Name)
+		}
+		return &sref{depth: len(st.frames) - 1, obj: obj}, nil
+	case *ast.StarExpr:
+		v, err := in.eval(st, x.X)
+		if err != nil {
+			return nil, err
+		}
+		if v.k != skPtr {
+			return nil, serr(e, "dereference of something that is not a pointer to a local")
+		}
+		return v.ref, nil
+	case *ast.SelectorExpr:
+		sel := info.Selections[x]
+		if sel == nil || sel.Kind() != types.FieldVal {
+			return nil, serr(e, "selector is not a field")
+		}
+		base, err := in.refOf(st, x.X)
+		if err != nil {
+			return nil, err
+		}
+		// through a pointer variable: continue in what it points to
+		if bv, err := in.load(st, base); err == nil && bv.k == skPtr {
+			base = bv.ref
+		}
+		r := &sref{depth: base.depth, obj: base.obj, path: append(append([]spath(nil), base.path...), spath{field: x.Sel.Name})}
+		return r, nil
+	case *ast.IndexExpr:
+		base, err := in.refOf(st, x.X)
+		if err != nil {
+			return nil, err
+		}
+		i, err := in.eval(st, x.Index)
+		if err != nil {
+			return nil, err
+		}
+		if i.k != skConc || i.c.K != VInt {
+			return nil, serr(e, "element reference with a symbolic index")
+		}
+		return &sref{depth: base.depth, obj: base.obj, path: append(append([]spath(nil), base.path...), spath{idx: int(i.c.I), field: "#"})}, nil
+	}
+	return nil, serr(e, "expression is not addressable in the model")
+}
+
+func (in *semit) load(st *sstate, r *sref) (sval, error) {
+	if r.depth >= len(st.frames) {
+		return sval{}, fmt.Errorf("dangling reference")
+	}
+	v, ok := st.frames[r.depth].vars[r.obj]
+	if !ok {
+		return sval{}, fmt.Errorf("reference to a variable without value")
+	}
+	for _, pe := range r.path {
+		switch {
+		case pe.field == "#":
+			if v.k == skBuf && pe.idx == 0 {
+				continue // &b[0]: the buffer's storage
+			}
+			if v.k != skArr || pe.idx < 0 || pe.idx >= len(v.elems) {
+				return sval{}, fmt.Errorf("element %d of something that is not an array of that size", pe.idx)
+			}
+			v = v.elems[pe.idx]
+		default:
+			if v.k != skStruct {
+				return sval{}, fmt.Errorf("field %s of something that is not a record", pe.field)
+			}
+			f, ok := v.fields[pe.field]
+			if !ok {
+				return sval{}, fmt.Errorf("record has no field %s", pe.field)
+			}
+			v = f
+		}
+	}
+	return v, nil
+}
+
+func setPath(v sval, path []spath, nv sval) (sval, error) {
+	if len(path) == 0 {
+		return nv, nil
+	}
+	pe := path[0]
+	if pe.field == "#" {
+		if v.k != skArr || pe.idx < 0 || pe.idx >= len(v.elems) {
+			return sval{}, fmt.Errorf("store to element %d of something that is not an array of that size", pe.idx)
+		}
+		out := v
+		out.elems = append([]sval(nil), v.elems...)
+		e, err := setPath(v.elems[pe.idx], path[1:], nv)
+		if err != nil {
+			return sval{}, err
+		}
+		out.elems[pe.idx] = e
+		return out, nil
+	}
+	if v.k != skStruct {
+		return sval{}, fmt.Errorf("store to field %s of something that is not a record", pe.field)
+	}
+	out := v
+	out.fields = make(map[string]sval, len(v.fields))
+	for k, f := range v.fields {
+		out.fields[k] = f
+	}
+	e, err := setPath(v.fields[pe.field], path[1:], nv)
+	if err != nil {
+		return sval{}, err
+	}
+	out.fields[pe.field] = e
+	return out, nil
+}
+
+func (in *semit) storeRef(st *sstate, r *sref, nv sval) error {
+	if r.depth >= len(st.frames) {
+		return fmt.Errorf("dangling reference")
+	}
+	root := st.frames[r.depth].vars[r.obj]
+	out, err := setPath(root, r.path, nv)
+	if err != nil {
+		return err
+	}
+	st.frames[r.depth].vars[r.obj] = out
+	return nil
+}
+
+// zeroSym: the zero value of a type as a model value
+func (in *semit) zeroSym(t types.Type) sval {
+	if isByteSlice(t) {
+		return sval{k: skBuf}
+	}
+	switch u := t.Underlying().(type) {
+	case *types.Struct:
+		name := ""
+		if n, ok := t.(*types.Named); ok {
+			name = n.Obj().Name()
+		}
+		out := sval{k: skStruct, typ: name, fields: map[string]sval{}}
+		for i := 0; i < u.NumFields(); i++ {
+			out.fields[u.Field(i).Name()] = in.zeroSym(u.Field(i).Type())
+		}
+		return out
+	case *types.Array:
+		if u.Len() <= 4096 {
+			out := sval{k: skArr}
+			for i := int64(0); i < u.Len(); i++ {
+				out.elems = append(out.elems, in.zeroSym(u.Elem()))
+			}
+			return out
+		}
+	}
+	return conc(zeroOf(t))
 }
 
 // ---------------------------------------------------------------------------
@@ -1118,7 +1495,20 @@ func (in *semit) eval(st *sstate, e ast.Expr) (sval, error) {
 					}
 				}
 			case *ast.CompositeLit:
-				return in.eval(st, t)
+				v, err := in.eval(st, t)
+				if err != nil {
+					return sval{}, err
+				}
+				if v.k == skStruct {
+					v.isPtr = true
+				}
+				return v, nil
+			case *ast.SelectorExpr:
+				r, err := in.refOf(st, t)
+				if err != nil {
+					return sval{}, err
+				}
+				return sval{k: skPtr, ref: r}, nil
 			}
 			return sval{}, serr(e, "address-of form outside the emitter language")
 		case token.NOT:
@@ -1153,9 +1543,18 @@ func (in *semit) eval(st *sstate, e ast.Expr) (sval, error) {
 		}
 		switch v.k {
 		case skPtr:
-			return st.frames[v.ref.depth].vars[v.ref.obj], nil
+			lv, err := in.load(st, v.ref)
+			if err != nil {
+				return sval{}, serr(e, "%v", err)
+			}
+			return lv, nil
 		case skRecv:
 			return v, nil
+		case skStruct:
+			if v.isPtr {
+				v.isPtr = false
+				return v, nil
+			}
 		}
 		return sval{}, serr(e, "dereference of something that is not a pointer to a local")
 	case *ast.BinaryExpr:
@@ -1185,6 +1584,53 @@ func (in *semit) eval(st *sstate, e ast.Expr) (sval, error) {
 				return conc(vInt(int64(a.c.S[i.c.I]))), nil
 			}
 		}
+		if a.k == skPtr {
+			if lv, err := in.load(st, a.ref); err == nil {
+				a = lv
+			}
+		}
+		if a.k == skArr && i.k == skConc && i.c.K == VInt {
+			if i.c.I < 0 || int(i.c.I) >= len(a.elems) {
+				return sval{}, serr(e, "index %d out of range [0,%d): the code would panic", i.c.I, len(a.elems))
+			}
+			return a.elems[i.c.I], nil
+		}
+		if i.k == skBits && (a.k == skArr || (a.k == skConc && a.c.K == VList)) {
+			// a table entry chosen by a symbolic index: a chain of alternatives;
+			// an index outside the table is a panic, reported when it is possible
+			n := len(a.elems)
+			if a.k == skConc {
+				n = len(a.c.T)
+			}
+			get := func(k int) sval {
+				if a.k == skArr {
+					return a.elems[k]
+				}
+				return conc(a.c.T[k])
+			}
+			inRange := &bform{op: "false"}
+			var out *sval
+			for k := n - 1; k >= 0; k-- {
+				eq := bitsEqConst(i.bits, int64(k))
+				inRange = bOr(inRange, eq)
+				v := get(k)
+				if out == nil {
+					out = &v
+					continue
+				}
+				prev := *out
+				m, err := mergeVal(eq, v, prev)
+				if err != nil {
+					return sval{}, err
+				}
+				out = &m
+			}
+			if out == nil {
+				return sval{}, serr(e, "index into an empty table")
+			}
+			in.oob = append(in.oob, oobCheck{at: e, inRange: inRange, pc: in.pc})
+			return *out, nil
+		}
 		return sval{}, serr(e, "indexing outside the emitter language")
 	case *ast.SelectorExpr:
 		if _, _, ok := p.fieldOf(n); ok {
@@ -1195,15 +1641,54 @@ func (in *semit) eval(st *sstate, e ast.Expr) (sval, error) {
 			if err != nil {
 				return sval{}, err
 			}
+			if base.k == skPtr {
+				lv, err := in.load(st, base.ref)
+				if err != nil {
+					return sval{}, serr(e, "%v", err)
+				}
+				base = lv
+			}
 			if base.k == skConc && base.c.K == VStruct {
 				if v, ok := base.c.F[n.Sel.Name]; ok {
 					return conc(v), nil
+				}
+			}
+			if base.k == skStruct {
+				if v, ok := base.fields[n.Sel.Name]; ok {
+					return v, nil
 				}
 			}
 			return sval{}, serr(e, "field selection outside the emitter language")
 		}
 		return sval{}, serr(e, "selector outside the emitter language")
 	case *ast.CompositeLit:
+		if tv, ok := info.Types[n]; ok {
+			if stt, ok := tv.Type.Underlying().(*types.Struct); ok {
+				out := in.zeroSym(tv.Type)
+				if out.k != skStruct {
+					return sval{}, serr(e, "record literal outside the model")
+				}
+				for i, el := range n.Elts {
+					name := ""
+					ve := el
+					if kv, ok := el.(*ast.KeyValueExpr); ok {
+						id, ok := kv.Key.(*ast.Ident)
+						if !ok {
+							return sval{}, serr(e, "record literal key")
+						}
+						name, ve = id.Name, kv.Value
+					} else if i < stt.NumFields() {
+						name = stt.Field(i).Name()
+					}
+					v, err := in.eval(st, ve)
+					if err != nil {
+						return sval{}, err
+					}
+					out.fields[name] = v
+				}
+				return out, nil
+			}
+		}
 		if lv, ok := p.listValue(n); ok {
 			return conc(lv), nil
 		}
@@ -1283,6 +1768,22 @@ func (in *semit) evalBinary(st *sstate, n *ast.BinaryExpr) (sval, error) {
 		return sval{}, err
 	}
 	if n.Op == token.EQL || n.Op == token.NEQ {
+		if f, ok := nilCompare(a, b); ok {
+			if n.Op == token.NEQ {
+				f = bNot(f)
+			}
+			return formulaVal(f), nil
+		}
+		if x, y, ok := bothBits(a, b); ok {
+			var f *bform = &bform{op: "true"}
+			for i := range x {
+				f = bAnd(f, bNot(bXor(x[i], y[i])))
+			}
+			if n.Op == token.NEQ {
+				f = bNot(f)
+			}
+			return formulaVal(f), nil
+		}
 		f, ok, err := symEq(a, b, n)
 		if err != nil {
 			return sval{}, err
@@ -1293,6 +1794,50 @@ func (in *semit) evalBinary(st *sstate, n *ast.BinaryExpr) (sval, error) {
 			}
 			return sval{k: skBool, f: f}, nil
 		}
+	}
+	if x, y, ok := bothBits(a, b); ok {
+		out := sval{k: skBits}
+		switch n.Op {
+		case token.AND:
+			for i := range x {
+				out.bits = append(out.bits, bAnd(x[i], y[i]))
+			}
+			return out, nil
+		case token.OR:
+			for i := range x {
+				out.bits = append(out.bits, bOr(x[i], y[i]))
+			}
+			return out, nil
+		case token.XOR:
+			for i := range x {
+				out.bits = append(out.bits, bXor(x[i], y[i]))
+			}
+			return out, nil
+		case token.AND_NOT:
+			for i := range x {
+				out.bits = append(out.bits, bAnd(x[i], bNot(y[i])))
+			}
+			return out, nil
+		case token.SHL, token.SHR:
+			if b.k != skConc {
+				return sval{}, serr(n, "shift by a symbolic amount")
+			}
+			w := len(a.bits)
+			sh := int(b.c.I)
+			for i := 0; i < w; i++ {
+				j := i - sh
+				if n.Op == token.SHR {
+					j = i + sh
+				}
+				if j >= 0 && j < w {
+					out.bits = append(out.bits, a.bits[j])
+				} else {
+					out.bits = append(out.bits, bConst(false))
+				}
+			}
+			return out, nil
+		}
+		return sval{}, serr(n, "operator %s on a symbolic bit set", n.Op)
 	}
 	if a.k == skUnk || b.k == skUnk {
 		switch n.Op {
@@ -1309,6 +1854,57 @@ func (in *semit) evalBinary(st *sstate, n *ast.BinaryExpr) (sval, error) {
 		return conc(v), nil
 	}
 	return sval{}, serr(n, "operator %s on symbolic values", n.Op)
+}
+
+func bXor(x, y *bform) *bform {
+	return bOr(bAnd(x, bNot(y)), bAnd(bNot(x), y))
+}
+
+func formulaVal(f *bform) sval {
+	switch f.op {
+	case "true":
+		return conc(vBool(true))
+	case "false":
+		return conc(vBool(false))
+	}
+	return sval{k: skBool, f: f}
+}
+
+// nilCompare: `a == b` when one side is nil and the other a pointer-like model value
+func nilCompare(a, b sval) (*bform, bool) {
+	isNil := func(v sval) bool { return v.k == skConc && v.c.K == VNil }
+	if isNil(b) {
+		a, b = b, a
+	}
+	if !isNil(a) {
+		return nil, false
+	}
+	var rec func(v sval) (*bform, bool)
+	rec = func(v sval) (*bform, bool) {
+		switch v.k {
+		case skConc:
+			if v.c.K == VNil {
+				return bConst(true), true
+			}
+			if v.c.K == VOpaque {
+				return bConst(false), true
+			}
+		case skStruct:
+			if v.isPtr {
+				return bConst(false), true
+			}
+		case skPtr, skRecv:
+			return bConst(false), true
+		case skIte:
+			x, ok1 := rec(*v.a)
+			y, ok2 := rec(*v.b)
+			if ok1 && ok2 {
+				return bIte(v.f, x, y), true
+			}
+		}
+		return nil, false
+	}
+	return rec(b)
 }
 
 // symEq: a == b as a formula when one side is a Get string
@@ -1389,6 +1985,19 @@ func (in *semit) evalCall(st *sstate, n *ast.CallExpr) (sval, error) {
 			return sval{}, err
 		}
 		switch v.k {
+		case skBits:
+			w := widthOf(tv.Type)
+			out := sval{k: skBits}
+			for i := 0; i < w; i++ {
+				if i < len(v.bits) {
+					out.bits = append(out.bits, v.bits[i])
+				} else {
+					out.bits = append(out.bits, bConst(false))
+				}
+			}
+			return out, nil
+		case skStruct, skBool, skArr:
+			return v, nil
 		case skBuf, skPtr, skGet, skIte, skRecv:
 			// string(b), []byte(s), unsafe.Pointer(&b), (*string)(ptr): same content
 			return v, nil
@@ -1517,6 +2126,44 @@ func (in *semit) evalCall(st *sstate, n *ast.CallExpr) (sval, error) {
 		}
 		return sval{}, serr(n, "unsafe.%s form outside the emitter language", fn.Name())
 	}
+	if fn.Pkg() != nil && fn.Pkg().Path() == "math/bits" && strings.HasPrefix(fn.Name(), "TrailingZeros") && len(n.Args) == 1 {
+		v, err := in.eval(st, n.Args[0])
+		if err != nil {
+			return sval{}, err
+		}
+		if v.k == skBits {
+			// value k iff bit k is the lowest set bit; the width when none is set
+			w := len(v.bits)
+			switch strings.TrimPrefix(fn.Name(), "TrailingZeros") {
+			case "8":
+				w = 8
+			case "16":
+				w = 16
+			case "32":
+				w = 32
+			}
+			for len(v.bits) < w {
+				v.bits = append(append([]*bform(nil), v.bits...), bConst(false))
+			}
+			res := sval{k: skBits, bits: bitsOf(0, 8)}
+			none := &bform{op: "true"}
+			for k := 0; k <= w; k++ {
+				var isK *bform
+				if k < w {
+					isK = bAnd(none, v.bits[k])
+					none = bAnd(none, bNot(v.bits[k]))
+				} else {
+					isK = none
+				}
+				for b := 0; b < 8; b++ {
+					if k>>uint(b)&1 == 1 {
+						res.bits[b] = bOr(res.bits[b], isK)
+					}
+				}
+			}
+			return res, nil
+		}
+	}
 	if fn.Pkg() != p.P.Types {
 		// pure library functions on concrete arguments
 		var args []Val
@@ -1548,6 +2195,20 @@ func (in *semit) evalCall(st *sstate, n *ast.CallExpr) (sval, error) {
 			return sval{}, err
 		}
 		recv, hasRecv = v, true
+		// x.M() with a pointer receiver on an addressable value: &x
+		if ro := p.recvObj(fd); ro != nil {
+			_, ptrRecv := ro.Type().(*types.Pointer)
+			switch {
+			case ptrRecv && recv.k != skPtr && recv.k != skRecv:
+				if r, err := in.refOf(st, se.X); err == nil {
+					recv = sval{k: skPtr, ref: r}
+				}
+			case !ptrRecv && recv.k == skPtr:
+				if lv, err := in.load(st, recv.ref); err == nil {
+					recv = lv
+				}
+			}
+		}
 	}
 	var args []sval
 	for _, a := range n.Args {
@@ -1614,11 +2275,7 @@ func (in *semit) inline(st *sstate, fd *ast.FuncDecl, recv sval, hasRecv bool, a
 	}
 	for _, r := range resultObjs(info, fd) {
 		if r != nil {
-			if isByteSlice(r.Type()) {
-				fr.vars[r] = sval{k: skBuf}
-			} else {
-				fr.vars[r] = conc(zeroOf(r.Type()))
-			}
+			fr.vars[r] = in.zeroSym(r.Type())
 		}
 	}
 	work.frames = append(work.frames, fr)
